@@ -25,7 +25,8 @@ def real_dump(reader, schema=None, uidfield="u", with_stats=False, parts=None):
         num2uid = {}
         where = "all_doc_ids"
         docnums = list(reader.all_doc_ids())
-        names = schema.names()
+        from whoosim.workload import expand_names
+        names = expand_names(list(schema.names()), schema)
         colfields = [n for n in names if schema[n].column_type] if "columns" in parts else []
         creaders = {}
         for n in colfields:
